@@ -23,6 +23,9 @@ from .interp import Interp, Env, PDict
 class Contract:
     def __init__(self, target, **kw):
         self.target = target
+        # a second contract on the same function (other configurations, weaker claim) is registered under target#variant
+        self.variant = kw.pop("variant", None)
+        self.key = target + ("#" + self.variant if self.variant else "")
         self.configs = kw.pop("configs", {})
         self.inputs = kw.pop("inputs")
         self.requires = kw.pop("requires", [])
@@ -53,8 +56,8 @@ class Registry:
         self.order = []
 
     def add(self, c):
-        self.contracts[c.target] = c
-        self.order.append(c.target)
+        self.contracts[c.key] = c
+        self.order.append(c.key)
 
     def spec_for_call(self, I, f):
         c = self.contracts.get(f.qualname)
@@ -102,7 +105,8 @@ class Registry:
     def loop_rule(self, I, env, st):
         if env.func is None:
             return None
-        c = self.contracts.get(env.func.qualname)
+        cur = getattr(I, "current_contract", None)
+        c = cur if (cur is not None and cur.target == env.func.qualname) else self.contracts.get(env.func.qualname)
         if c is None or not c.loops:
             return None
         # loops are keyed by ordinal within the function body
@@ -443,11 +447,12 @@ def call_with(I, f, argd, force_body):
 def verify_config(I, c, fn, specf, cfg):
     obligations = []
     ex = Explorer(I, max_paths=c.opts.get("max_paths", 600))
-    tag = "%s[%s]" % (c.target.split(".")[-1] if "." in c.target else c.target, cfg_name(cfg))
-    short = ".".join(c.target.split(".")[-2:]) if c.target.count(".") >= 2 else c.target
+    tag = "%s[%s]" % (c.key.split(".")[-1] if "." in c.key else c.key, cfg_name(cfg))
+    short = ".".join(c.key.split(".")[-2:]) if c.key.count(".") >= 2 else c.key
     tag = "%s[%s]" % (short, cfg_name(cfg))
     pathno = [0]
     I.verifying = c.target
+    I.current_contract = c
     I.float_mode = c.float_mode
     I.engine_opts = dict(c.engine_opts)
     I.registry_model = lambda goal: model_to_inputs(I, I.ctx, goal)
@@ -468,7 +473,7 @@ def verify_config(I, c, fn, specf, cfg):
                 I.verifying = None
                 sp = run_outcome(I, lambda: call_with(I, specf, args2, True))
             except Unsupported as u:
-                return [Obligation("%s#%d" % (tag, k), c.target, cfg, "unsupported", "spec: %s" % u,
+                return [Obligation("%s#%d" % (tag, k), c.key, cfg, "unsupported", "spec: %s" % u,
                                    ms=1000 * (time.time() - t0))]
             finally:
                 I.verifying = c.target
@@ -480,7 +485,7 @@ def verify_config(I, c, fn, specf, cfg):
             I.mutations = None
         except Unsupported as u:
             I.mutations = None
-            return [Obligation("%s#%d" % (tag, k), c.target, cfg, "unsupported", str(u), ms=1000 * (time.time() - t0))]
+            return [Obligation("%s#%d" % (tag, k), c.key, cfg, "unsupported", str(u), ms=1000 * (time.time() - t0))]
         name = "%s#%d:%s" % (tag, k, real.describe())
         notes = ";".join(ctx.notes)
         res = []
@@ -496,11 +501,11 @@ def verify_config(I, c, fn, specf, cfg):
             hit = sorted(set(reach[id(m)] for m in muts if id(m) in reach))
             if hit:
                 model, status = model_to_inputs(I, ctx, None)
-                res.append(Obligation("%s#%d:frame" % (tag, k), c.target, cfg, "failed" if status == "sat" else "undecided",
+                res.append(Obligation("%s#%d:frame" % (tag, k), c.key, cfg, "failed" if status == "sat" else "undecided",
                                       "modifies argument(s) %s which must stay unchanged | %s" % (hit, notes), model,
                                       ms=1000 * (time.time() - t1), kind="frame"))
             else:
-                res.append(Obligation("%s#%d:frame" % (tag, k), c.target, cfg, "discharged",
+                res.append(Obligation("%s#%d:frame" % (tag, k), c.key, cfg, "discharged",
                                       "no mutating construct executed on %s" % c.frame, kind="frame"))
         if specf is not None:
             if sp is None:
@@ -510,7 +515,7 @@ def verify_config(I, c, fn, specf, cfg):
                     sp = run_outcome(I, lambda: call_with(I, specf, args2, True))
                 except Unsupported as u:
                     I.verifying = c.target
-                    return [Obligation(name, c.target, cfg, "unsupported", "spec: %s" % u, ms=1000 * (time.time() - t0))]
+                    return [Obligation(name, c.key, cfg, "unsupported", "spec: %s" % u, ms=1000 * (time.time() - t0))]
                 finally:
                     I.verifying = c.target
             ok, why = compare_outcomes(I, c, real, sp, args1, args2)
@@ -530,18 +535,18 @@ def verify_config(I, c, fn, specf, cfg):
                     # satisfiable path, or a counter-model of the equality goal
                     st = "failed" if status == "sat" else "undecided"
                 detail = "real %s vs spec %s: %s | %s" % (real.describe(), sp.describe(), msg, notes)
-            res.append(Obligation(name, c.target, cfg, st, detail, model, ms=1000 * (time.time() - t0)))
+            res.append(Obligation(name, c.key, cfg, st, detail, model, ms=1000 * (time.time() - t0)))
         # "raises nothing but ...": the exception class of every raising path is one of the listed ones
         if c.may_raise is not None and real.kind == "raise":
             t1 = time.time()
             en = real.exc.cls.name
             oname = "%s#%d:raises-only (%s)" % (tag, k, en)
             if en in c.may_raise:
-                res.append(Obligation(oname, c.target, cfg, "discharged", "raises only %s" % ", ".join(c.may_raise),
+                res.append(Obligation(oname, c.key, cfg, "discharged", "raises only %s" % ", ".join(c.may_raise),
                                       ms=1000 * (time.time() - t1), kind="raises-only"))
             else:
                 model, status = model_to_inputs(I, ctx, None)
-                res.append(Obligation(oname, c.target, cfg, "failed" if status == "sat" else "undecided",
+                res.append(Obligation(oname, c.key, cfg, "failed" if status == "sat" else "undecided",
                                       "raises %s, allowed: %s | %s" % (en, ", ".join(c.may_raise), notes), model,
                                       ms=1000 * (time.time() - t1), kind="raises-only"))
         # exceptional postconditions: an exception of class E is raised iff its condition holds
@@ -557,14 +562,14 @@ def verify_config(I, c, fn, specf, cfg):
                     en = real.exc.cls.name
                     if en not in conds:
                         model, status = model_to_inputs(I, ctx, None)
-                        res.append(Obligation(oname, c.target, cfg, "failed" if status == "sat" else "undecided",
+                        res.append(Obligation(oname, c.key, cfg, "failed" if status == "sat" else "undecided",
                                               "raises %s which the contract does not allow | %s" % (en, notes), model,
                                               ms=1000 * (time.time() - t1), kind="raises"))
                     else:
                         g = conds[en]
                         ok_ = ctx.entails(g, patient=True)
                         model, status = (None, None) if ok_ else model_to_inputs(I, ctx, g)
-                        res.append(Obligation(oname, c.target, cfg, "discharged" if ok_ else
+                        res.append(Obligation(oname, c.key, cfg, "discharged" if ok_ else
                                               ("failed" if status == "sat" else "undecided"),
                                               "raises %s only if: %s | %s" % (en, c.raises[en], notes), model,
                                               ms=1000 * (time.time() - t1), kind="raises"))
@@ -572,12 +577,12 @@ def verify_config(I, c, fn, specf, cfg):
                     g = z3.And([z3.Not(v) for v in conds.values()]) if conds else z3.BoolVal(True)
                     ok_ = ctx.entails(g, patient=True)
                     model, status = (None, None) if ok_ else model_to_inputs(I, ctx, g)
-                    res.append(Obligation(oname, c.target, cfg, "discharged" if ok_ else
+                    res.append(Obligation(oname, c.key, cfg, "discharged" if ok_ else
                                           ("failed" if status == "sat" else "undecided"),
                                           "returns although a raise condition holds | %s" % notes, model,
                                           ms=1000 * (time.time() - t1), kind="raises"))
             except Unsupported as u:
-                res.append(Obligation(oname, c.target, cfg, "unsupported", str(u), kind="raises"))
+                res.append(Obligation(oname, c.key, cfg, "unsupported", str(u), kind="raises"))
         # extra postconditions on the real outcome
         for ei, (ename, text) in enumerate(c.ensures):
             t1 = time.time()
@@ -591,15 +596,15 @@ def verify_config(I, c, fn, specf, cfg):
                 f = S.expr_fn(text, [], env)
                 g = I.pure(f)
                 if ctx.entails(g, patient=True):
-                    res.append(Obligation("%s#%d:ensures %s" % (tag, k, ename), c.target, cfg, "discharged", text,
+                    res.append(Obligation("%s#%d:ensures %s" % (tag, k, ename), c.key, cfg, "discharged", text,
                                           ms=1000 * (time.time() - t1), kind="ensures"))
                 else:
                     model, status = model_to_inputs(I, ctx, g)
-                    res.append(Obligation("%s#%d:ensures %s" % (tag, k, ename), c.target, cfg,
+                    res.append(Obligation("%s#%d:ensures %s" % (tag, k, ename), c.key, cfg,
                                           "failed" if status == "sat" else "undecided", text + " | " + notes, model,
                                           ms=1000 * (time.time() - t1), kind="ensures"))
             except Unsupported as u:
-                res.append(Obligation("%s#%d:ensures %s" % (tag, k, ename), c.target, cfg, "unsupported", str(u),
+                res.append(Obligation("%s#%d:ensures %s" % (tag, k, ename), c.key, cfg, "unsupported", str(u),
                                       kind="ensures"))
         return res
 
@@ -607,7 +612,7 @@ def verify_config(I, c, fn, specf, cfg):
         for ctx, res in ex.explore(one):
             obligations.extend(res)
     except Unsupported as u:
-        obligations.append(Obligation("%s#explore" % tag, c.target, cfg, "unsupported", str(u)))
+        obligations.append(Obligation("%s#explore" % tag, c.key, cfg, "unsupported", str(u)))
     finally:
         I.verifying = None
     return obligations
